@@ -362,10 +362,28 @@ def parse_load(out):
     return res
 
 
+# Every malloc'd byte is pre-filled with a constant: a loader/player that reads memory it never wrote (that is
+# C01/C06's subject, found on corpus modules) then behaves the same in both loads instead of making C08 flaky.
+ASAN_ENV = {"ASAN_OPTIONS": "detect_leaks=0:abort_on_error=0:allocator_may_return_null=1:"
+                            "max_malloc_fill_size=1073741824:malloc_fill_byte=190"}
+
+
 def run_load_shard(args):
     exe, listfile = args
-    rc, out, err = vlib.run_exe(exe, ["load", listfile], timeout=3000)
+    rc, out, err = vlib.run_exe(exe, ["load", listfile], timeout=3000, env=ASAN_ENV)
     return rc, out.decode("latin-1"), err
+
+
+def reproduces(exe, c, md5, workdir):
+    """re-run one case alone in a fresh process, twice; True if the oracle fails both times"""
+    lf = os.path.join(workdir, "recheck-%s.txt" % c["id"])
+    open(lf, "w").write("%s %s %s %d\n" % (c["id"], c["apath"], c["ppath"], c["nframes"]))
+    for _ in range(2):
+        rc, out, err = run_load_shard((exe, lf))
+        r = parse_load(out).get(c["id"])
+        if rc == 0 and r and not oracle_one(r[0], md5):
+            return False
+    return True
 
 
 def run_load(ck, exe, cases, workdir, tag, nshards=None):
@@ -743,7 +761,13 @@ def run(ck):
         elif kv["mrc"] != "0":
             why = "not loadable"
         elif oracle_one(kv, md5):
-            why = "bare path load differs from memory load (%s)" % ",".join(oracle_one(kv, md5))
+            f0 = oracle_one(kv, md5)
+            if set(f0) <= {"md5", "md5_memory"}:
+                ck.violation("oracle:bare:md5", {"archive": c["apath"], "payload": c["ppath"], "fails": f0, "result": kv},
+                             "xmp_module_info.md5 of an unpacked module differs from the MD5 of its bytes (%s): %s vs %s" % (
+                                 ",".join(f0), kv["pmd5"], md5))
+            else:
+                why = "bare path load differs from memory load (%s)" % ",".join(f0)
         if why:
             dropped[why.split(" (")[0]] = dropped.get(why.split(" (")[0], 0) + 1
             if c["id"].startswith("gbare"):
@@ -816,6 +840,13 @@ def run(ck):
                 ck.bump("xz_bigdict_rejected")
             else:
                 ck.bump("xz_bigdict_accepted")
+            continue
+        if fails and set(fails) <= {"pcm", "module_digest"} and not reproduces(exe, c, c["md5"], workdir):
+            # not a property of the archive: the same payload renders differently from run to run (C06)
+            ck.bump("unstable_payload_results_ignored")
+            ck.notes.setdefault("unstable_payloads", [])
+            if os.path.basename(c["ppath"]) not in ck.notes["unstable_payloads"]:
+                ck.notes["unstable_payloads"].append(os.path.basename(c["ppath"]))
             continue
         if fails:
             c["oracle_failed"] = True
